@@ -93,6 +93,7 @@ func (vc *VC) call(c *ssa.CallCommon, res *ssa.Call, pos token.Pos) SVal {
 	// dynamic call through a function value
 	vc.note("dynamic call through function value at %s: results and all memory havocked, callee panics not excluded", vc.eng.prog.Fset.Position(pos))
 	vc.havocAll()
+	vc.nallocCall(nil, nil, "dynamic call")
 	return vc.fresh(rt, "dyn")
 }
 
@@ -153,6 +154,7 @@ func (vc *VC) applyContract(con *Contract, key string, names []string, args []SV
 	R := vc.R[vc.cur]
 	vc.nCalls++
 	if con == nil {
+		vc.nallocCall(nil, nil, key)
 		vc.uncontracted[key] = true
 		if valueOnlyStdlib(key, sig) {
 			// A standard-library function whose parameters and receiver are numbers, booleans and
@@ -231,6 +233,7 @@ func (vc *VC) applyContract(con *Contract, key string, names []string, args []SV
 		post.vars[k] = v
 	}
 	bindResults(post, sig, result)
+	vc.nallocCall(con, post, key)
 	// preserves cond: patterns  -> matching memories equal the pre-call ones when cond holds
 	for _, pc := range con.Preserves {
 		cond := vc.evalBool(pc.E, post)
@@ -285,6 +288,17 @@ func lastSeg(s string) string {
 
 func bindResults(env *Env, sig *types.Signature, result SVal) {
 	rs := sig.Results()
+	// noerr: the last result, when it is an error, is nil (true for functions without error result)
+	env.vars["noerr"] = boolV("true")
+	if n := rs.Len(); n > 0 && types.TypeString(rs.At(n-1).Type(), nil) == "error" {
+		last := result
+		if n > 1 {
+			last = result.F[n-1]
+		}
+		if last.K == KRef {
+			env.vars["noerr"] = boolV(eq(last.S, "0"))
+		}
+	}
 	switch rs.Len() {
 	case 0:
 	case 1:
@@ -435,6 +449,7 @@ func (vc *VC) appendBuiltin(c *ssa.CallCommon, rt types.Type) SVal {
 	newLen := vc.def("apl", SInt, add(s.ln(), tl))
 	fits := le(newLen, s.cp())
 	fobj := vc.newObj()
+	vc.nallocAppend(not(fits))
 	vc.fact("true", eq(r.ln(), newLen))
 	vc.fact("true", le(newLen, r.cp()))
 	vc.fact("true", ite(fits, and(eq(r.obj(), s.obj()), eq(r.off(), s.off()), eq(r.cp(), s.cp())), and(eq(r.obj(), fobj), eq(r.off(), "0"))))
